@@ -44,7 +44,7 @@ func init() {
 		},
 		Quick:    100000,
 		Thorough: 1000000,
-		Require:  []string{"request.afterAdversarialEvent", "discovery.duplicateTokenRefused", "listener.transientAcceptError", "discovery.foreignToken", "server.closesPeer"},
+		Require:  []string{"request.afterAdversarialEvent", "discovery.duplicateTokenRefused", "discovery.sendFails", "listener.transientAcceptError", "discovery.foreignToken", "server.closesPeer"},
 		Assume: []string{
 			"transcripts are compared on code, token, options and payload, not on message IDs; adversaries never spoof a well-behaved peer's source address; handlers never block",
 			"a well-behaved peer whose own traffic was corrupted by the network is exempt from the isolation comparison",
@@ -756,11 +756,12 @@ func c10Discovery(e *Env) {
 	nDisc := 1 + t.Choose(2)
 	e.Logf("cfg discovery: %d discoveries, %d responders", nDisc, nResp)
 	type disc struct {
-		token  []byte
-		got    []string // "remote|payload"
-		done   bool
-		ctx    context.Context
-		cancel context.CancelFunc
+		token     []byte
+		got       []string // "remote|payload"
+		done      bool
+		sendFails bool
+		ctx       context.Context
+		cancel    context.CancelFunc
 	}
 	discs := make([]*disc, nDisc)
 	group := UDPAddr("224.0.1.187", 5683)
@@ -782,6 +783,20 @@ func c10Discovery(e *Env) {
 		discs[i] = d
 		d.ctx, d.cancel = context.WithTimeout(context.Background(), 20*time.Second+time.Duration(i)*time.Millisecond)
 		e.OnCleanup(d.cancel)
+		// the send of a discovery may fail (interface down, network unreachable): that discovery is over, and its
+		// receiver must be gone with it
+		d.sendFails = t.Chance(1, 4)
+		if d.sendFails {
+			e.Fault("discovery.sendFails")
+			w.dn.WriteErr = func(src, dst *net.UDPAddr) error {
+				if dst.IP.IsMulticast() {
+					return &net.OpError{Op: "write", Net: "udp", Err: syscall.ENETUNREACH}
+				}
+				return nil
+			}
+		} else {
+			w.dn.WriteErr = nil
+		}
 		go func() {
 			req := pool.NewMessage(d.ctx)
 			tok := message.Token{0xd1, byte(i)}
@@ -803,6 +818,15 @@ func c10Discovery(e *Env) {
 			w.mu.Unlock()
 		}()
 		e.Wait()
+	}
+	w.dn.WriteErr = nil
+	for di, d := range discs {
+		w.mu.Lock()
+		done := d.done
+		w.mu.Unlock()
+		if d.sendFails && !done {
+			e.Violate("C10.R5", "discovery-did-not-return", "discovery %d: the send failed but the call has not returned", di)
+		}
 	}
 	// deliver the multicast requests (to the scripted group)
 	for _, p := range w.dn.PendingList() {
@@ -883,7 +907,7 @@ func c10Discovery(e *Env) {
 			tok = []byte{0xee, 0xee, byte(a.di)}
 			pl = "forged"
 			e.Fault("discovery.foreignToken")
-		} else {
+		} else if !discs[a.di].sendFails {
 			want[a.di] = append(want[a.di], a.from.String()+"|"+pl)
 		}
 		d := w.dn.Inject(a.from, w.srvAddr, EncodeUDP(&WMsg{Type: TNON, Code: 0x45, MID: uint16(9000 + len(answers)), Token: tok, Payload: []byte(pl)}))
